@@ -7,6 +7,7 @@
 -/
 import Gedcom.Lemmas.RoundTrip
 import Gedcom.Generated.DecoderFacts
+import Gedcom.Generated.EncoderFacts
 namespace Gedcom.C01
 open Gedcom Gedcom.Dec
 
@@ -107,5 +108,25 @@ theorem decoder_source_facts :
     Generated.goSpaceSeqs = spaceSeqs ∧ Generated.goTrimKeepsInvalid = true ∧
     Generated.trimUsesTrimSpace = true ∧ Generated.readLineBreaks = [LF, CR] ∧
     Generated.bomBytes = BOM := by decide
+
+/-- **The line writer is the source's.** `Generated.gedcomLineProgram` is translated on every
+    run, statement by statement, from the body of `SimpleNode.GEDCOMLine` (guarded buffer writes,
+    `Sprintf` formats split into literal bytes and fields).  Running the translated program on a
+    line gives exactly the model's `renderLine`, for every level, pointer, tag and value. -/
+theorem renderLine_is_the_source_program (l : Line) :
+    Emit.supported Generated.gedcomLineProgram = true ∧
+    Emit.runProgram Generated.gedcomLineProgram l = renderLine l := by
+  refine ⟨by decide, ?_⟩
+  simp only [Generated.gedcomLineProgram, Emit.runProgram, List.flatMap_cons, List.flatMap_nil,
+    Emit.Emit.eval, Emit.evalPieces, Emit.Piece.eval, renderLine, List.append_nil]
+  by_cases hp : l.ptr = [] <;> by_cases hv : l.value = [] <;> simp [hp, hv, SP, AT]
+
+/-- **Obligation on the regenerated encoder facts**: `SimpleNode.GEDCOMLine` is the only
+    `GEDCOMLine` method (every node type embeds `SimpleNode`), `renderNode` appends one LF to a
+    line and writes children one level deeper, `Encode` writes the byte order mark first and the
+    root nodes in order. -/
+theorem encoder_source_facts :
+    Generated.gedcomLineMethods = 1 ∧ Generated.lineTerminator = [LF] ∧
+    Generated.childIndentDelta = 1 ∧ Generated.encodeBOMFirst = true := by decide
 
 end Gedcom.C01
